@@ -225,6 +225,22 @@ def case_helper(case, col=None):
         same_m = (repr(q2.magnitude) == repr(r.magnitude)) or (not hasattr(q2.magnitude, "nominal_value") and q2.magnitude == r.magnitude)
         if {k: _fr(v) for k, v in q2._units.items()} != ru or (not same_m and not nonfinite):
             raise Violation(f"inplace_helper_differs:{helper}", f"ito_{helper} left {q2.magnitude!r} {dict(q2._units)}, to_{helper} returns {r.magnitude!r} {dict(r._units)}")
+    if g is not None and nit == "float" and not case.get("unc") and not nonfinite:
+        # integer arrays cannot hold a converted value: the in-place form either refuses (and leaves the quantity alone) or gives what the
+        # functional form gives - never truncated numbers
+        import numpy as np
+
+        ia = np.array([1, 2, 3], dtype=np.int64)
+        sf, rf = attempt(f, ureg.Quantity(ia.copy(), ureg.UnitsContainer(dict(units))))
+        qi = ureg.Quantity(ia.copy(), ureg.UnitsContainer(dict(units)))
+        si, ri = attempt(g, qi)
+        if sf == "ok":
+            if si == "ok" and not ({k: _fr(v) for k, v in qi._units.items()} == {k: _fr(v) for k, v in rf._units.items()} and np.allclose(np.asarray(qi.magnitude, dtype=float), np.asarray(rf.magnitude, dtype=float), rtol=1e-9, atol=0)):
+                raise Violation(f"inplace_helper_truncates_integer_array:{helper}", f"ito_{helper} on [1 2 3] {units} left {qi!r}; to_{helper} returns {rf!r}")
+            if si == "err" and (not np.array_equal(qi.magnitude, ia) or {k: _fr(v) for k, v in qi._units.items()} != {k: _fr(v) for k, v in units.items()}):
+                raise Violation(f"refused_inplace_helper_changed_quantity:{helper}", f"ito_{helper} on [1 2 3] {units} raised {type(ri).__name__} and left {qi!r}")
+            if col is not None:
+                col.count("integer_array_twin")
     if helper == "root":
         if any(not R.units[R.lookup(n)[1]].is_base or R.lookup(n)[0] != 1 for n in ru):
             raise Violation("root_units_not_root", f"{dict(r._units)}")
